@@ -35,6 +35,29 @@ func fieldOfDynamicCall(call ssa.CallInstruction) string {
 	return ""
 }
 
+// invokesFieldCallback: the call instruction invokes the function value stored in struct field `field` — directly, or through an
+// in-repo wrapper (a function with a body that does so on some path, followed to depth 2). Wrappers are followed so that moving the
+// notification into a helper does not hide it from the path rules.
+func (c *Ctx) invokesFieldCallback(call ssa.CallInstruction, field string, depth int) bool {
+	if fieldOfDynamicCall(call) == field {
+		return true
+	}
+	if depth >= 2 {
+		return false
+	}
+	cal := call.Common().StaticCallee()
+	if cal == nil || len(cal.Blocks) == 0 || !c.InScope(cal) || cal.Parent() != nil {
+		return false // function literals are analysed as functions of their own
+	}
+	found := false
+	EachInstr(cal, false, func(in ssa.Instruction) {
+		if ci, ok := in.(ssa.CallInstruction); ok && !found && c.invokesFieldCallback(ci, field, depth+1) {
+			found = true
+		}
+	})
+	return found
+}
+
 func checkC17(c *Ctx, r *Report) {
 	r.Explain = "Decides structural necessary conditions of 'checkpoints never run ahead': (R1) the checkpointer's lists, lookup table, last checkpoint and revision ids are only touched under its lock and the `_` helpers — including the function that persists the checkpoints — are entered with it held, so the computation of a safe sequence and its persistence are one critical section; (R2) the persisted last_sequence derives only from the element of the expected list selected by the safe-prefix index, and the in-memory last checkpoint is updated only after both writes succeeded; (R3) the safe-prefix scan sorts by SequenceID.Before, advances only on the processed-hit edge and stops at the first miss, and list compaction removes an element only when it and its successor are processed; (R4) the replicators bind each registration callback to the matching checkpointer method, and when a pulled changes batch is handled the already-known sequences are reported only after the batch's expected sequences have been registered; (R5) a pulled revision is reported processed only on the success edge of its local write (or purge); (R6) a pushed revision is reported processed only after the peer's answer to it was received. Not decided: interleavings of registration and completion across concurrent batches, monotonicity of successive checkpoints as a whole."
 	la := newLockAnalysis(c, []string{"Checkpointer.lock"}, "db")
@@ -341,10 +364,10 @@ func c17R4(c *Ctx, r *Report) {
 	var expCalls, knownCalls []ssa.Instruction
 	EachInstr(fn, false, func(in ssa.Instruction) {
 		if call, ok := in.(ssa.CallInstruction); ok {
-			switch fieldOfDynamicCall(call) {
-			case "sgr2PullAddExpectedSeqsCallback":
+			switch {
+			case c.invokesFieldCallback(call, "sgr2PullAddExpectedSeqsCallback", 0):
 				expCalls = append(expCalls, call)
-			case "sgr2PullAlreadyKnownSeqsCallback":
+			case c.invokesFieldCallback(call, "sgr2PullAlreadyKnownSeqsCallback", 0):
 				knownCalls = append(knownCalls, call)
 			}
 		}
